@@ -1,10 +1,20 @@
 (* Fine-grained model of qs.hpp: invariants (J1-J4 with the in-flight adjustments, restarter
    uniqueness, K, the pending-list structure) for every number of threads, every scripts, every
    scheduler; grace period, callbacks once / by owner, node untouched, absence of deadlock. *)
-From Coq Require Import List NArith Bool Arith Lia ZifyBool ZifyNat ZifyN.
+From Coq Require Import List NArith Bool Arith Lia.
 Import ListNotations.
 From FV Require Import Qs.QsTypes Qs.QsModel Qs.QsFgModel Qs.QsWoProofs.
 Local Open Scope N_scope.
+
+(* boolean comparisons to propositions (lia is used without ZifyBool here: contexts are large) *)
+Ltac n2p := repeat match goal with
+  | H : (_ =? _) = true |- _ => apply N.eqb_eq in H
+  | H : (_ =? _) = false |- _ => apply N.eqb_neq in H
+  | H : (_ <? _) = true |- _ => apply N.ltb_lt in H
+  | H : (_ <? _) = false |- _ => apply N.ltb_ge in H
+  | H : negb _ = true |- _ => apply negb_true_iff in H
+  | H : negb _ = false |- _ => apply negb_false_iff in H
+  end.
 
 (* the step of the repaired source *)
 Definition fstep : tid -> fstate -> result := f_step MLock MUnlock true.
@@ -74,9 +84,9 @@ Definition local_ok (s : fstate) (nown : nid -> tid) (t : tid) (th : thread) : P
   (in_qs (tpc th) = false -> tret th = None) /\
   match tpc th with
   | PIdle => True
-  | POn0 | POn1 => acked a = 0
-  | POn2 c | POn3 c | POn4 c => acked a = 0 /\ c = ctr d /\ nagents d = 1
-  | POn5 c => acked a = 0
+  | POn0 | POn1 => acked a = 0 /\ deferred a = false
+  | POn2 c | POn3 c | POn4 c => acked a = 0 /\ deferred a = false /\ c = ctr d /\ nagents d = 1 /\ 1 <= c
+  | POn5 c => acked a = 0 /\ deferred a = false /\ 1 <= c
   | POff0 | POff1 => acked a <> 0 /\ deferred a = false
   | POff2 c | POff3 c | POff4 c => acked a <> 0 /\ deferred a = false /\ c = ctr d /\ acked a + 1 = c
   | POff5 => deferred a = false
@@ -228,7 +238,76 @@ Proof.
   - destruct H as [H1 H2]. split; [assumption|]. rewrite (Hw _ H1). assumption.
 Qed.
 
+(* the counting attributes of t do not change; the mutex and t's agent object may *)
+Lemma fcore_move2 s s' t th' :
+  FCore U nown s -> NoDup U -> In t U ->
+  fth s' = upd (fth s) t th' ->
+  ctr (fd s') = ctr (fd s) -> nagents (fd s') = nagents (fd s) -> toack (fd s') = toack (fd s) ->
+  vctr s' = vctr s ->
+  (forall n, fwtg s' n = fwtg s n \/ nown n = t) ->
+  memb th' = memb (fth s t) -> eack th' = eack (fth s t) -> isoff2 th' = isoff2 (fth s t) ->
+  special th' = special (fth s t) -> restarter th' = restarter (fth s t) ->
+  (forall x, holds (fth s' x) = true <-> fmx s' = Some x) ->
+  local_ok s' nown t th' ->
+  (deferred (tag th') = true -> memb th' = true /\ acked (tag th') = ctr (fd s)) ->
+  FCore U nown s'.
+Proof.
+  intros HC ND Ht Hth Hc Hn Hta Hv Hw A1 A2 A6 A3 A5 Hh Hl H4.
+  assert (Hoth : forall x, x <> t -> fth s' x = fth s x) by (intros x Hx; rewrite Hth; now apply upd_other).
+  assert (Hme : fth s' t = th') by (rewrite Hth; apply upd_same).
+  assert (Hneeds : forall c, needs c th' = needs c (fth s t)) by (intros c; now rewrite !needs_eq, A1, A2, A6).
+  apply (fcore_upd U nown s s' t th' HC ND Ht Hth Hv).
+  - rewrite Hc. apply N.le_refl.
+  - rewrite A1, A2. apply (f_j1 _ _ _ HC t).
+  - rewrite Hneeds, Hta. reflexivity.
+  - rewrite A1, Hn. reflexivity.
+  - exact Hh.
+  - intros x. destruct (Nat.eq_dec x t) as [->|Hx]; [now rewrite Hme|]. rewrite (Hoth x Hx).
+    apply (local_ok_frame s s' x (fth s x) Hc Hn); [|apply (f_loc _ _ _ HC x)].
+    intros n Hnx. destruct (Hw n) as [E|E]; [assumption|congruence].
+  - intros x Hx. rewrite Hc. destruct (Nat.eq_dec x t) as [->|Hn'].
+    + rewrite Hme in *. now apply H4.
+    + rewrite (Hoth x Hn') in *. apply (f_j4 _ _ _ HC x Hx).
+  - intros x y Hx Hy.
+    assert (Rx : restarter (fth s x) = true) by (destruct (Nat.eq_dec x t) as [->|Hn']; [now rewrite Hme, A5 in Hx|now rewrite (Hoth x Hn') in Hx]).
+    assert (Ry : restarter (fth s y) = true) by (destruct (Nat.eq_dec y t) as [->|Hn']; [now rewrite Hme, A5 in Hy|now rewrite (Hoth y Hn') in Hy]).
+    apply (f_r1 _ _ _ HC x y Rx Ry).
+  - intros x Hx Hs. rewrite Hta.
+    destruct (Nat.eq_dec x t) as [->|Hn']; [rewrite Hme in *; apply (f_r2 _ _ _ HC t); congruence|].
+    rewrite (Hoth x Hn') in *. apply (f_r2 _ _ _ HC x Hx Hs).
+Qed.
+
 (* thread t moves between program counters with the same attributes; shared counters unchanged *)
+Lemma hold_same s s' t th' :
+  FCore U nown s -> fth s' = upd (fth s) t th' -> fmx s' = fmx s -> holds th' = holds (fth s t) ->
+  forall x, holds (fth s' x) = true <-> fmx s' = Some x.
+Proof.
+  intros HC Hth Hm Hh x. rewrite Hm, Hth. destruct (Nat.eq_dec x t) as [->|Hx].
+  - rewrite upd_same, Hh. apply (f_hold _ _ _ HC t).
+  - rewrite upd_other by assumption. apply (f_hold _ _ _ HC x).
+Qed.
+
+Lemma hold_lock s s' t th' :
+  FCore U nown s -> fth s' = upd (fth s) t th' -> fmx s = None -> fmx s' = Some t -> holds th' = true ->
+  forall x, holds (fth s' x) = true <-> fmx s' = Some x.
+Proof.
+  intros HC Hth Hm Hm' Hh x. rewrite Hm', Hth. destruct (Nat.eq_dec x t) as [->|Hx].
+  - rewrite upd_same, Hh. tauto.
+  - rewrite upd_other by assumption. split.
+    + intros H. apply (f_hold _ _ _ HC x) in H. congruence.
+    + intros H. inversion H. congruence.
+Qed.
+
+Lemma hold_unlock s s' t th' :
+  FCore U nown s -> fth s' = upd (fth s) t th' -> fmx s = Some t -> fmx s' = None -> holds th' = false ->
+  forall x, holds (fth s' x) = true <-> fmx s' = Some x.
+Proof.
+  intros HC Hth Hm Hm' Hh x. rewrite Hm', Hth. destruct (Nat.eq_dec x t) as [->|Hx].
+  - rewrite upd_same, Hh. split; discriminate.
+  - rewrite upd_other by assumption. split; [|discriminate].
+    intros H. apply (f_hold _ _ _ HC x) in H. congruence.
+Qed.
+
 Lemma fcore_move s s' t th' :
   FCore U nown s -> NoDup U -> In t U ->
   fth s' = upd (fth s) t th' ->
@@ -241,28 +320,213 @@ Lemma fcore_move s s' t th' :
 Proof.
   intros HC ND Ht Hth Hc Hn Hta Hm Hw Hat Hl.
   unfold attrs in Hat. inversion Hat as [[A1 A2 A3 A4 A5 A6 A7 A8]]. clear Hat.
+  apply (fcore_move2 s s' t th' HC ND Ht Hth Hc Hn Hta); try assumption.
+  - unfold vctr. rewrite Hm, Hc, Hth. destruct (fmx s) as [h|]; [|reflexivity].
+    destruct (Nat.eq_dec h t) as [->|Hx]; [now rewrite upd_same, A3|now rewrite upd_other].
+  - apply (hold_same s s' t th' HC Hth Hm A4).
+  - rewrite A7, A8, A1. apply (f_j4 _ _ _ HC t).
+Qed.
+
+(* facts about the threads that do not hold the mutex *)
+Lemma other_not_holder s t x : FCore U nown s -> fmx s = Some t -> x <> t -> holds (fth s x) = false.
+Proof.
+  intros HC Hm Hx. destruct (holds (fth s x)) eqn:E; [|reflexivity].
+  apply (f_hold _ _ _ HC x) in E. congruence.
+Qed.
+
+(* local facts of the other threads when the holder changes num_agents *)
+Lemma loc_others_holder s s' t x :
+  FCore U nown s -> fmx s = Some t -> x <> t ->
+  ctr (fd s') = ctr (fd s) -> fwtg s' = fwtg s ->
+  local_ok s' nown x (fth s x).
+Proof.
+  intros HC Hm Hx Hc Hw. pose proof (f_loc _ _ _ HC x) as [L0 L]. pose proof (other_not_holder s t x HC Hm Hx) as Hh.
+  split; [assumption|]. unfold holds in Hh. destruct (tpc (fth s x)); try discriminate; rewrite ?Hc, ?Hw; assumption.
+Qed.
+
+(* the holder t resets agents_to_ack: from now on the virtual period is the next one *)
+Lemma fcore_vbump s s' t th' :
+  FCore U nown s -> NoDup U -> In t U ->
+  fth s' = upd (fth s) t th' ->
+  fmx s = Some t -> fmx s' = Some t ->
+  special (fth s t) = false -> restarter (fth s t) = true ->
+  special th' = true -> holds th' = true -> restarter th' = true ->
+  memb th' = memb (fth s t) -> eack th' = eack (fth s t) -> isoff2 th' = false ->
+  tag th' = tag (fth s t) ->
+  ctr (fd s') = ctr (fd s) -> nagents (fd s') = nagents (fd s) -> toack (fd s') = nagents (fd s) ->
+  fwtg s' = fwtg s ->
+  local_ok s' nown t th' ->
+  FCore U nown s'.
+Proof.
+  intros HC ND Ht Hth Hm Hm' Sp Rs Sp' Hh' Rs' A1 A2 A6 Atag Hc Hn Hta Hw Hl.
   assert (Hoth : forall x, x <> t -> fth s' x = fth s x) by (intros x Hx; rewrite Hth; now apply upd_other).
   assert (Hme : fth s' t = th') by (rewrite Hth; apply upd_same).
-  assert (Hneeds : forall c, needs c th' = needs c (fth s t)) by (intros c; now rewrite !needs_eq, A1, A2, A6).
-  assert (Hat : forall x, attrs (fth s' x) = attrs (fth s x)).
-  { intros x. destruct (Nat.eq_dec x t) as [->|Hx]; [|now rewrite (Hoth x Hx)]. rewrite Hme. unfold attrs. congruence. }
-  assert (Hv : vctr s' = vctr s).
-  { unfold vctr. rewrite Hm, Hc. destruct (fmx s) as [h|]; [|reflexivity].
-    pose proof (Hat h) as E. unfold attrs in E. inversion E. now rewrite H2. }
-  apply (fcore_upd U nown s s' t th' HC ND Ht Hth Hv); try lia.
-  - rewrite A1, A2. apply (f_j1 _ _ _ HC t).
-  - rewrite Hneeds. lia.
-  - rewrite A1. lia.
-  - intros x. rewrite Hm. pose proof (Hat x) as E. unfold attrs in E. inversion E. rewrite H3. apply (f_hold _ _ _ HC x).
+  assert (Hv : vctr s = ctr (fd s)) by (unfold vctr; now rewrite Hm, Sp).
+  assert (Hv' : vctr s' = ctr (fd s) + 1) by (unfold vctr; now rewrite Hm', Hme, Sp', Hc).
+  assert (T0 : toack (fd s) = 0) by (apply (f_r2 _ _ _ HC t Rs Sp)).
+  assert (Hnn : forall x, In x U -> needs (ctr (fd s)) (fth s x) = false).
+  { intros x Hx. pose proof (f_j2 _ _ _ HC) as J. rewrite T0, Hv in J. symmetry in J. apply (cnt_zero _ _ J x Hx). }
+  assert (Hmem : forall x, memb (fth s x) = true -> In x U).
+  { intros x Hx. destruct (in_dec Nat.eq_dec x U) as [i|n]; [assumption|].
+    rewrite (f_univ _ _ _ HC x n) in Hx. discriminate. }
+  assert (Hall : forall x, memb (fth s x) = true -> eack (fth s x) = ctr (fd s)).
+  { intros x Hx. destruct (f_j1 _ _ _ HC x Hx) as [E|E]; rewrite Hv in E; [assumption|].
+    pose proof (Hnn x (Hmem x Hx)) as F. rewrite needs_eq, Hx in F. apply orb_false_iff in F. destruct F as [_ F].
+    cbn in F. apply N.eqb_neq in F. contradiction. }
+  assert (Hat : forall x, memb (fth s' x) = memb (fth s x) /\ eack (fth s' x) = eack (fth s x)).
+  { intros x. destruct (Nat.eq_dec x t) as [->|Hx]; [rewrite Hme; auto|rewrite (Hoth x Hx); auto]. }
+  constructor.
+  - rewrite Hc. apply (f_ctr _ _ _ HC).
+  - intros x Hx. rewrite Hoth by (intros ->; contradiction). apply (f_univ _ _ _ HC x Hx).
+  - apply (hold_same s s' t th' HC Hth); [congruence|]. rewrite Hh'. symmetry. apply (f_hold _ _ _ HC t). exact Hm.
   - intros x. destruct (Nat.eq_dec x t) as [->|Hx]; [now rewrite Hme|]. rewrite (Hoth x Hx).
-    apply (local_ok_frame s s' x (fth s x) Hc Hn); [|apply (f_loc _ _ _ HC x)].
-    intros n Hnx. destruct (Hw n) as [E|E]; [assumption|congruence].
-  - intros x Hx. pose proof (Hat x) as E. unfold attrs in E. inversion E. rewrite H0, H7, Hc.
-    apply (f_j4 _ _ _ HC x). congruence.
-  - intros x y Hx Hy. pose proof (Hat x) as E. pose proof (Hat y) as F. unfold attrs in E, F. inversion E. inversion F.
-    apply (f_r1 _ _ _ HC x y); congruence.
-  - intros x Hx Hs. pose proof (Hat x) as E. unfold attrs in E. inversion E. rewrite Hta.
-    apply (f_r2 _ _ _ HC x); congruence.
+    apply (local_ok_frame s s' x (fth s x) Hc Hn); [|apply (f_loc _ _ _ HC x)]. intros; now rewrite Hw.
+  - intros x Hx. destruct (Hat x) as [E1 E2]. rewrite E1 in Hx. rewrite E2, Hv', (Hall x Hx). now right.
+  - rewrite Hta, Hv', (f_j3 _ _ _ HC). apply cnt_ext. intros x Hx. destruct (Hat x) as [E1 E2].
+    rewrite needs_eq, E1, E2.
+    assert (I2 : isoff2 (fth s' x) = false).
+    { destruct (Nat.eq_dec x t) as [->|Hn']; [now rewrite Hme|]. rewrite (Hoth x Hn').
+      pose proof (Hnn x Hx) as F. rewrite needs_eq in F. apply orb_false_iff in F. tauto. }
+    rewrite I2. cbn. destruct (memb (fth s x)) eqn:M; [|reflexivity]. rewrite (Hall x M). cbn. symmetry. apply N.eqb_refl.
+  - rewrite Hn, (f_j3 _ _ _ HC). apply cnt_ext. intros x _. now destruct (Hat x) as [-> _].
+  - intros x Hx. rewrite Hc. destruct (Nat.eq_dec x t) as [->|Hn'].
+    + rewrite Hme in *. rewrite Atag in *. rewrite A1. apply (f_j4 _ _ _ HC t Hx).
+    + rewrite (Hoth x Hn') in *. apply (f_j4 _ _ _ HC x Hx).
+  - intros x y Hx Hy.
+    assert (Rx : restarter (fth s x) = true) by (destruct (Nat.eq_dec x t) as [->|Hn']; [assumption|now rewrite (Hoth x Hn') in Hx]).
+    assert (Ry : restarter (fth s y) = true) by (destruct (Nat.eq_dec y t) as [->|Hn']; [assumption|now rewrite (Hoth y Hn') in Hy]).
+    apply (f_r1 _ _ _ HC x y Rx Ry).
+  - intros x Hx Hs. destruct (Nat.eq_dec x t) as [->|Hn']; [rewrite Hme in Hs; congruence|].
+    rewrite (Hoth x Hn') in Hx. elim Hn'. apply (f_r1 _ _ _ HC x t Hx Rs).
+Qed.
+
+(* the holder t, having reset agents_to_ack, stores the new period *)
+Lemma fcore_store_ctr s s' t th' :
+  FCore U nown s -> NoDup U -> In t U ->
+  fth s' = upd (fth s) t th' ->
+  fmx s = Some t -> fmx s' = Some t ->
+  special (fth s t) = true -> restarter (fth s t) = true ->
+  special th' = false -> holds th' = true -> restarter th' = false ->
+  memb th' = memb (fth s t) -> eack th' = eack (fth s t) -> isoff2 th' = false -> isoff2 (fth s t) = false ->
+  deferred (tag th') = false ->
+  ctr (fd s') = ctr (fd s) + 1 -> nagents (fd s') = nagents (fd s) -> toack (fd s') = toack (fd s) ->
+  fwtg s' = fwtg s ->
+  local_ok s' nown t th' ->
+  FCore U nown s'.
+Proof.
+  intros HC ND Ht Hth Hm Hm' Sp Rs Sp' Hh' Rs' A1 A2 A6 A6' Dt Hc Hn Hta Hw Hl.
+  assert (Hoth : forall x, x <> t -> fth s' x = fth s x) by (intros x Hx; rewrite Hth; now apply upd_other).
+  assert (Hme : fth s' t = th') by (rewrite Hth; apply upd_same).
+  assert (Hv : vctr s = ctr (fd s) + 1) by (unfold vctr; now rewrite Hm, Sp).
+  assert (Hv' : vctr s' = vctr s) by (unfold vctr at 1; now rewrite Hm', Hme, Sp', Hc, Hv).
+  assert (Honly : forall x, x <> t -> restarter (fth s x) = false).
+  { intros x Hx. destruct (restarter (fth s x)) eqn:R; [|reflexivity]. elim Hx. apply (f_r1 _ _ _ HC x t R Rs). }
+  apply (fcore_upd U nown s s' t th' HC ND Ht Hth Hv').
+  - rewrite Hc. lia.
+  - rewrite A1, A2. apply (f_j1 _ _ _ HC t).
+  - rewrite !needs_eq, A1, A2, A6, A6', Hta. reflexivity.
+  - rewrite A1, Hn. reflexivity.
+  - apply (hold_same s s' t th' HC Hth); [congruence|]. rewrite Hh'. symmetry. apply (f_hold _ _ _ HC t). exact Hm.
+  - intros x. destruct (Nat.eq_dec x t) as [->|Hx]; [now rewrite Hme|]. rewrite (Hoth x Hx).
+    pose proof (f_loc _ _ _ HC x) as [L0 L]. pose proof (other_not_holder s t x HC Hm Hx) as Hhx.
+    pose proof (Honly x Hx) as Rx. split; [assumption|].
+    unfold holds in Hhx. unfold restarter in Rx. apply orb_false_iff in Rx. destruct Rx as [Dx Rx].
+    destruct (tpc (fth s x)) eqn:Ex; try discriminate; rewrite ?Hw; try assumption.
+    + (* PQ2 c: impossible while t is special *)
+      exfalso. destruct L as (La & Lb & Lc & Ld).
+      assert (M : memb (fth s x) = true) by (unfold memb; rewrite Ex; destruct (acked (tag (fth s x)) =? 0) eqn:Z; [apply N.eqb_eq in Z; contradiction|reflexivity]).
+      destruct (f_j1 _ _ _ HC x M) as [E|E]; unfold eack in E; rewrite Ex, Hv in E; lia.
+    + rewrite Hc. lia.
+  - intros x Hx. destruct (Nat.eq_dec x t) as [->|Hn']; [rewrite Hme in Hx; congruence|].
+    rewrite (Hoth x Hn') in Hx. pose proof (Honly x Hn') as R. unfold restarter in R. rewrite Hx in R. discriminate.
+  - intros x y Hx Hy. destruct (Nat.eq_dec x t) as [->|Hn']; [rewrite Hme in Hx; congruence|].
+    rewrite (Hoth x Hn') in Hx. rewrite (Honly x Hn') in Hx. discriminate.
+  - intros x Hx Hs. destruct (Nat.eq_dec x t) as [->|Hn']; [rewrite Hme in Hx; congruence|].
+    rewrite (Hoth x Hn') in Hx. rewrite (Honly x Hn') in Hx. discriminate.
 Qed.
 
 End Moves.
+
+Section GhostMoves.
+Variable nown : nid -> tid.
+
+(* thread t moves; node fields unchanged; waiting sets only shrink *)
+Lemma fghost_frame s s' t th' :
+  FGhost nown s ->
+  fth s' = upd (fth s) t th' ->
+  ftarget s' = ftarget s -> fowner s' = fowner s -> fwtg s' = fwtg s ->
+  (forall n x, fwait s' n x = true -> fwait s n x = true) ->
+  (forall b x, fqbw s' b x = true -> fqbw s b x = true) ->
+  acked (tag th') = acked (tag (fth s t)) -> pending (tag th') = pending (tag (fth s t)) ->
+  (forall n, fwait s' n t = true -> in_quiescent (tpc th') = false) ->
+  (forall b, fqbw s' b t = true -> in_quiescent (tpc th') = false) ->
+  (qb_target th' = None \/ qb_target th' = qb_target (fth s t)) ->
+  (forall n, in_await (fth s t) n = true -> in_await th' n = true) ->
+  (forall c, In c (tscript th') -> In c (tscript (fth s t))) ->
+  FGhost nown s'.
+Proof.
+  intros HG Hth Htg Hown Hwtg Hw Hq Hack Hpend Hkt Hqt Hqb Haw Hscr.
+  assert (Hoth : forall x, x <> t -> fth s' x = fth s x) by (intros x Hx; rewrite Hth; now apply upd_other).
+  assert (Hme : fth s' t = th') by (rewrite Hth; apply upd_same).
+  assert (Hacked : forall x, acked (tag (fth s' x)) = acked (tag (fth s x))).
+  { intros x. destruct (Nat.eq_dec x t) as [->|Hx]; [now rewrite Hme|now rewrite Hoth]. }
+  assert (Hpending : forall x, pending (tag (fth s' x)) = pending (tag (fth s x))).
+  { intros x. destruct (Nat.eq_dec x t) as [->|Hx]; [now rewrite Hme|now rewrite Hoth]. }
+  constructor.
+  - intros n x Hx. rewrite Hacked, Hwtg. destruct (f_k _ _ HG n x (Hw n x Hx)) as (A & B & C).
+    split; [assumption|]. split; [|assumption].
+    destruct (Nat.eq_dec x t) as [->|Hn]; [rewrite Hme; apply (Hkt n Hx)|now rewrite Hoth].
+  - intros b x tg Hx Hb. rewrite Hacked.
+    assert (Hb' : qb_target (fth s b) = Some tg).
+    { destruct (Nat.eq_dec b t) as [->|Hn]; [|now rewrite Hoth in Hb].
+      rewrite Hme in Hb. destruct Hqb as [E|E]; [congruence|now rewrite <- E]. }
+    destruct (f_kq _ _ HG b x tg (Hq b x Hx) Hb') as (A & B & C).
+    split; [assumption|]. split; [|assumption].
+    destruct (Nat.eq_dec x t) as [->|Hn]; [rewrite Hme; apply (Hqt b Hx)|now rewrite Hoth].
+  - intros n. rewrite Htg, Hown, Hwtg. intros Hn. destruct (f_m _ _ HG n Hn) as (o & Ho & Hin & Hor).
+    exists o. split; [assumption|]. split; [now rewrite Hpending|].
+    destruct Hor as [E|E]; [now left|right].
+    destruct (Nat.eq_dec o t) as [->|Hx]; [rewrite Hme; now apply Haw|now rewrite Hoth].
+  - intros x n. rewrite Hpending, Htg, Hown. apply (f_p1 _ _ HG x n).
+  - intros x. rewrite Hpending. apply (f_p3 _ _ HG x).
+  - intros n x. rewrite Hown. apply (f_own _ _ HG n x).
+  - intros x n Hin. destruct (Nat.eq_dec x t) as [->|Hx].
+    + rewrite Hme in Hin. apply (f_scr _ _ HG t n). now apply Hscr.
+    + rewrite Hoth in Hin by assumption. apply (f_scr _ _ HG x n Hin).
+Qed.
+
+End GhostMoves.
+
+(* ---------------------------------------------------------------------------------------- *)
+(* case analysis of one step                                                                  *)
+(* ---------------------------------------------------------------------------------------- *)
+
+Ltac fstep_inv H Hstop :=
+  unfold fstep, f_step in H; rewrite Hstop in H; cbv zeta in H;
+  match type of H with context [tpc ?th] => destruct (tpc th) eqn:Epc end;
+  unfold do_mcall, start_call, qs_entry, ab_finish, cas_step, halt, stutter in H;
+  repeat match type of H with
+  | context [desired (fd ?s) =? ?c] => destruct (desired (fd s) =? c) eqn:?
+  end;
+  repeat match type of H with
+  | context [match ?x with _ => _ end] => destruct x eqn:?
+  end;
+  inversion H; subst; clear H;
+  cbn [tag tpc tscript tret acked deferred pending] in *.
+
+Ltac attrs_tac Epc :=
+  unfold attrs, memb, eack, special, holds, restarter, isoff2, ret_th; cbn; rewrite ?Epc; cbn;
+  repeat match goal with |- context [match ?x with _ => _ end] => destruct x eqn:?; cbn end;
+  reflexivity.
+
+Ltac local_tac U nown HC t Epc :=
+  let L := fresh "L" in
+  pose proof (f_loc U nown _ HC t) as L; unfold local_ok in L |- *; rewrite Epc in L; cbn in L |- *;
+  unfold ret_th; cbn;
+  repeat match goal with |- context [match ?x with _ => _ end] => destruct x eqn:?; cbn end;
+  n2p; intuition (try lia; try congruence).
+
+Ltac move_tac U nown HC ND Ht t Epc :=
+  eapply (fcore_move U nown _ _ t _ HC ND Ht);
+    [ cbn; reflexivity | cbn; reflexivity | cbn; reflexivity | cbn; reflexivity | cbn; reflexivity
+    | intros; left; reflexivity | attrs_tac Epc | local_tac U nown HC t Epc ].
